@@ -24,7 +24,7 @@ Lemma sig_norm_id f : explicit_field f = true -> sig_norm f = [f].
 Proof.
   unfold sig_norm, explicit_field. destruct f as [n t d]; simpl.
   destruct d as [|v]; simpl.
-  - intro H. apply negb_true_iff in H. rewrite H. simpl. rewrite andb_false_r. reflexivity.
+  - intro H. apply negb_true_iff in H. rewrite H. simpl. rewrite ?andb_false_r. reflexivity.
   - intro H. apply andb_true_iff in H. destruct H as [Hu Hv].
     apply negb_true_iff in Hu. rewrite Hu. simpl.
     destruct (is_none v) eqn:En; simpl in *; [|reflexivity].
